@@ -184,3 +184,35 @@ b("b-rename-hook-internals", "C11,C12,C03,C19,C20", [("src/state/hooks.rs", "run
    ("src/instructions/int1.rs", "self.mnemonic_hooks(", "self.hooks_for_mnemonic(", True), ("src/instructions/int3.rs", "self.mnemonic_hooks(", "self.hooks_for_mnemonic(", True),
    ("src/instructions/int.rs", "self.mnemonic_hooks(", "self.hooks_for_mnemonic(", True), ("src/instructions/syscall.rs", "self.mnemonic_hooks(", "self.hooks_for_mnemonic(", True)], "private hook helpers renamed")
 b("b-rename-empty", "C11,C15,C16,C20,C09", [("src/axecutor.rs", "fn empty()", "fn blank()"), ("src/axecutor.rs", "Axecutor::empty()", "Axecutor::blank()", True), ("src/elf/elf.rs", "Axecutor::empty()", "Axecutor::blank()", True)], "private constructor helper renamed")
+
+# ---------------------------------------------------------------- round 5: area list entries, loop variants
+m("c10-unchecked-adder", "C10", "src/state/memory.rs",
+  "    /// Set the access permissions of the memory area with the given start address.",
+  "    /// Map `data` at `start` (fast path for callers that computed a free address themselves).\n    pub fn mem_map_fixed(&mut self, start: u64, data: Vec<u8>) -> Result<(), AxError> {\n        let len = data.len() as u64;\n        self.state.memory.push(MemoryArea { start, length: len, data, name: None, access: PROT_READ | PROT_WRITE });\n        Ok(())\n    }\n\n    /// Set the access permissions of the memory area with the given start address.",
+  "C10.overlap", "a new public function adds an area without looking at the list")
+m("c10-sorted-assumption", "C10", "src/state/memory.rs",
+  "        for area in &self.state.memory {\n            // two half-open ranges share an address iff max(starts) < min(ends)\n            if start.max(area.start) < end.min(area.start + area.length) {",
+  "        for area in &self.state.memory {\n            if area.start >= end {\n                // everything from here on lies above the new area\n                break;\n            }\n            // two half-open ranges share an address iff max(starts) < min(ends)\n            if start.max(area.start) < end.min(area.start + area.length) {",
+  "C10.overlap", "the creation scan stops at the first area above the request although the list is not sorted")
+b("b-c10-push-helper", "C10,C09,C08,C13,C19", [("src/state/memory.rs",
+  "        self.state.memory.push(MemoryArea {\n            start,\n            length: len,\n            data,\n            name,\n            access: PROT_READ | PROT_WRITE,\n        });\n\n        debug_log!(\n            \"Initialized memory area{}",
+  "        self.add_area(MemoryArea {\n            start,\n            length: len,\n            data,\n            name,\n            access: PROT_READ | PROT_WRITE,\n        });\n\n        debug_log!(\n            \"Initialized memory area{}"),
+  ("src/state/memory.rs", "    /// Set the access permissions of the memory area with the given start address.",
+   "    fn add_area(&mut self, area: MemoryArea) {\n        self.state.memory.push(area);\n    }\n\n    /// Set the access permissions of the memory area with the given start address.")],
+  "the push moved into a private helper: the public creator is still the only way to it")
+m("c19-continue-skips-increment", "C19", "src/helpers/trace.rs", "Err(_) => \"<decoding error>\".to_string(),", "Err(_) => continue,", "C19.loops",
+  "a continue skips the hand-written loop increment")
+
+b("b-c07-elided-identical-write", "C07,C01,C19,C20", [("src/state/registers.rs",
+  "        // Intentionally cut off the upper 32bit, setting them to zero\n        let result_value = value as u32 as u64;\n",
+  "        // Intentionally cut off the upper 32bit, setting them to zero\n        let result_value = value as u32 as u64;\n        if self.state.registers.get(qword_register) == Some(&result_value) {\n            // the whole 64-bit register already holds the zero-extended value\n            return Ok(());\n        }\n")],
+  "a 32-bit write is skipped when the full register already equals the zero-extended value (the corrected form of seeded change S54)")
+m("c07-elided-low-half-write", "C07", "src/state/registers.rs",
+  "        // Intentionally cut off the upper 32bit, setting them to zero\n        let result_value = value as u32 as u64;\n",
+  "        // Intentionally cut off the upper 32bit, setting them to zero\n        let result_value = value as u32 as u64;\n        if self.state.registers.get(qword_register).map(|v| *v as u32 as u64) == Some(result_value) {\n            return Ok(());\n        }\n",
+  "C07.bits", "a 32-bit write is skipped when only the low half matches: the upper half survives")
+
+b("b-c14-zero-count-after-lookup", "C14,C13,C12,C19,C20", [("src/helpers/syscalls.rs",
+  "                // Maybe another hook will handle this fd\n                None => return Ok(HookResult::Unhandled),\n            };\n\n            debug_log!(\n                \"Running native read syscall for pipe with fd {}, buf {:#x}, count {}\",",
+  "                // Maybe another hook will handle this fd\n                None => return Ok(HookResult::Unhandled),\n            };\n\n            if count == 0 {\n                // nothing is delivered and nothing leaves the pipe; the buffer is not looked at\n                ax.reg_write_64(RAX, 0)?;\n                return Ok(HookResult::Handled);\n            }\n\n            debug_log!(\n                \"Running native read syscall for pipe with fd {}, buf {:#x}, count {}\",")],
+  "a zero-length read on a pipe end returns 0 early, after the descriptor was found (the corrected form of seeded change S55)")
